@@ -1620,27 +1620,30 @@ where
         let max_size = self.max_size;
 
         if let Some(entry) = self.get_mut_from_table(key) {
-            let new_value_size;
+            // The size recorded for the entry may be out of date, e.g. if an
+            // earlier mutation of this entry panicked after it had changed
+            // the value. So, the new size is determined from scratch and
+            // compared to the recorded one, instead of applying the change in
+            // value size observed here to it, which could drift or underflow.
+
+            let old_entry_size = entry.size;
+            let new_entry_size;
             let result;
-            let old_value_size;
 
             unsafe {
-                old_value_size = entry.value().mem_size();
                 result = op(entry.value_mut());
-                new_value_size = entry.value().mem_size();
+                new_entry_size = entry_size(entry.key(), entry.value());
             }
 
-            if new_value_size > old_value_size {
+            if new_entry_size > old_entry_size {
                 // The operation was expanding; we must ensure it still fits.
 
-                let diff = new_value_size - old_value_size;
-                let new_entry_size = entry.size + diff;
+                let diff = new_entry_size - old_entry_size;
 
                 if new_entry_size > max_size {
                     // The entry is too large after the operation; eject it and
                     // raise according error.
 
-                    let old_entry_size = entry.size;
                     let (key, value) = self.remove_entry(key).unwrap();
 
                     return Err(MutateError::EntryTooLarge {
@@ -1666,8 +1669,8 @@ where
             else {
                 // The operation was non-expanding; everything is ok.
 
-                let diff = old_value_size - new_value_size;
-                entry.size -= diff;
+                let diff = old_entry_size - new_entry_size;
+                entry.size = new_entry_size;
                 let entry_ptr = EntryPtr::new(entry as *mut Entry<K, V>);
                 self.current_size -= diff;
                 self.touch_ptr(entry_ptr);
